@@ -171,6 +171,25 @@ class ListGen:
             self.L += self.read_ops("", b1)
             self.features.add("list-swap")
             self.swap_pair = (a1, b1)
+        ints = [nm for nm in names if self.lists[nm]["t"] == "int" and self.lists[nm]["vals"]]
+        if len(ints) >= 2 and r.random() < 0.5:
+            # a helper whose parameter is spelled like a global list: inside it len()/indices are those of the ARGUMENT
+            g, other = r.sample(ints, 2)
+            fn = self.fresh("total")
+            self.L += [f"def {fn}({g}):", "    acc = 0", f"    for i in range(len({g})):", f"        acc = acc + {g}[i]",
+                       f"    mon.write({g}[len({g}) - 1])", "    return acc"]
+            for arg in (other, g, other):
+                t = self.fresh("t")
+                self.L += [f"{t} = {fn}({arg})", f"mon.write({t})"]
+            self.features.add("param-named-like-global-list")
+        if ints and r.random() < 0.4:
+            # an existing list re-assigned from another named list (a deep copy on the device), then grown and shrunk again
+            srcn = r.choice(ints)
+            cp = self.fresh("cp")
+            k = len(self.lists[srcn]["vals"])
+            self.L += [f"{cp} = [{', '.join(['9'] * k)}]", f"{cp} = {srcn}", f"{cp}.append(901)", f"mon.write({cp}[-1])", f"mon.write({cp}[0])",
+                       f"{cp}.remove(901)", f"mon.write(len({cp}))"]
+            self.features.add("copy-assign-then-append")
         if "list-alias" in self.hz:
             src = r.choice(names)
             al = self.fresh("alias")
@@ -252,7 +271,18 @@ class ListGen:
             nm = r.choice(names)
             info = self.lists[nm]
             vals = [self.lit(info["t"]) for _ in range(len(info["vals"]))]
-            if vals:
+            if vals and info["t"] == "int" and r.random() < 0.6:
+                # rebuilt from its own elements (shift register / element-wise update): the old block is still being read
+                k = len(vals)
+                if r.random() < 0.5:
+                    elems = [f"{nm}[{i + 1}]" for i in range(k - 1)] + ["count"]
+                    self.L.append(f"{ind}{nm} = [{', '.join(elems)}]")
+                else:
+                    self.L.append(f"{ind}{nm} = [{nm}[i] + 1 for i in range({k})]")
+                self.L.append(f"{ind}mon.write({nm}[0])")
+                self.features.add("hz:list-reassign-loop")
+                self.features.add("self-referential-rebuild")
+            elif vals:
                 self.L.append(f"{ind}{nm} = [{', '.join(self.src(v) for v in vals)}]")
                 self.features.add("hz:list-reassign-loop")
         self.L.append(f"{ind}{s} = \"p\" + str(count % 3)")
